@@ -410,7 +410,10 @@ def step(n, ev, env):
             h = h._replace(last_reject="cancel" if d[434] == "1" else "replace")
         if mt == "8" and d[150] == "5" and d[39] == "9":
             h = h._replace(repl_susp=True)
-        ann = (before, mt, d.get(150, "-"), d[39])
+        last_answer = n.ann[4] if n.ann else None
+        if answers is not None and mt == "8":
+            last_answer = "replaced" if d[150] == "5" else "canceled"
+        ann = (before, mt, d.get(150, "-"), d[39], last_answer)
         return Node(o, n.e, n.req, n.rep[1:], h, ann, n.depth + 1), v
     if ev == "x:recv":
         if not n.req:
@@ -500,7 +503,10 @@ def cause_class(n, clause, detail, env):
         return "replaced_while_suspended"
     if n.ann is None:
         return "before_any_report"
-    before, mt, et, st = n.ann
+    before, mt, et, st, last_answer = n.ann
+    if clause == "converge" and detail.get("field") in ("cum_qty", "leaves_qty", "price", "qty"):
+        # quantities: the culprit is rarely the last report; class = which request was answered last
+        return f"after_{last_answer}" if last_answer else "no_request_answered"
     return f"status_{before}_then_{'report' if mt == '8' else 'cxlrej'}_{et}/{st}"
 
 
